@@ -58,3 +58,100 @@ func RunThreads(c *Chooser, bodies []func(yield func())) []int {
 	}
 	return order
 }
+
+// Sched is the inline variant of the cooperative scheduler for fine-grained
+// scheduling points (loop-level yields): the running thread consults the
+// chooser itself and only blocks when the decision is to switch. Alternative 0
+// at a yield point continues the running thread, every other alternative is a
+// preemption; Explore's deviation bound therefore is a preemption bound
+// (choices made when a thread has finished count as well when they do not
+// take the runnable thread with the smallest id).
+type Sched struct {
+	c       *Chooser
+	resume  []chan struct{}
+	done    []bool
+	cur     int
+	fin     chan struct{}
+	Yields  int64
+	Switch  int64
+	enabled []int
+	panicV  any
+}
+
+// Yield is the scheduling point. It must only be called by the running thread.
+func (s *Sched) Yield() {
+	s.Yields++
+	me := s.cur
+	s.enabled = s.enabled[:0]
+	s.enabled = append(s.enabled, me)
+	for i, d := range s.done {
+		if !d && i != me {
+			s.enabled = append(s.enabled, i)
+		}
+	}
+	k := s.c.Choose(len(s.enabled))
+	if k == 0 {
+		return
+	}
+	next := s.enabled[k]
+	s.Switch++
+	s.cur = next
+	s.resume[next] <- struct{}{}
+	<-s.resume[me]
+}
+
+// RunInline runs the bodies under the schedule dictated by c. install is
+// called with the yield function before the first thread starts and with nil
+// after the last one has finished. A panic in a body is re-raised in the caller
+// after all other threads have been released.
+func RunInline(c *Chooser, bodies []func(), install func(yield func())) *Sched {
+	n := len(bodies)
+	s := &Sched{c: c, resume: make([]chan struct{}, n), done: make([]bool, n), fin: make(chan struct{})}
+	for i := range bodies {
+		s.resume[i] = make(chan struct{})
+	}
+	finish := func(me int) {
+		s.done[me] = true
+		s.enabled = s.enabled[:0]
+		for i, d := range s.done {
+			if !d {
+				s.enabled = append(s.enabled, i)
+			}
+		}
+		if len(s.enabled) == 0 {
+			close(s.fin)
+			return
+		}
+		next := s.enabled[0]
+		if s.panicV == nil {
+			next = s.enabled[c.Choose(len(s.enabled))]
+		}
+		s.cur = next
+		s.resume[next] <- struct{}{}
+	}
+	for i := range bodies {
+		i := i
+		go func() {
+			<-s.resume[i]
+			defer func() {
+				if r := recover(); r != nil && s.panicV == nil {
+					s.panicV = r
+				}
+				finish(i)
+			}()
+			if s.panicV == nil {
+				bodies[i]()
+			}
+		}()
+	}
+	install(s.Yield)
+	first := c.Choose(n)
+	s.cur = first
+	s.resume[first] <- struct{}{}
+	<-s.fin
+	install(nil)
+	if s.panicV != nil {
+		panic(s.panicV)
+	}
+	return s
+}
